@@ -1188,15 +1188,19 @@ Section HonestRun.
              end
     end.
 
-  Definition honest_run (q : list N) (tape : N -> bytes) : list (N * prun) :=
-    let p1 := map (fun i => (i, party_run com h512 i q (tape i) 0 [] [] [] [])) q in
-    let B1 := fun i => collect pr_r1 p1 i in
-    let p2 := map (fun i => (i, party_run com h512 i q (tape i) 0 (B1 i) [] [] [])) q in
-    let B2 := fun i => collect pr_r2b p2 i in
-    let U2 := fun i => collect (fun r => get i (pr_r2u r)) p2 i in
-    let p3 := map (fun i => (i, party_run com h512 i q (tape i) 0 (B1 i) (B2 i) (U2 i) [])) q in
-    let U3 := fun i => collect (fun r => get i (pr_r3u r)) p3 i in
-    map (fun i => (i, party_run com h512 i q (tape i) 0 (B1 i) (B2 i) (U2 i) (U3 i))) q.
+  Section Scheduler.
+    Variable q : list N.
+    Variable tape : N -> bytes.
+    Definition hr_p1 := map (fun i => (i, party_run com h512 i q (tape i) 0 [] [] [] [])) q.
+    Definition hr_B1 (i : N) := collect pr_r1 hr_p1 i.
+    Definition hr_p2 := map (fun i => (i, party_run com h512 i q (tape i) 0 (hr_B1 i) [] [] [])) q.
+    Definition hr_B2 (i : N) := collect pr_r2b hr_p2 i.
+    Definition hr_U2 (i : N) := collect (fun r => get i (pr_r2u r)) hr_p2 i.
+    Definition hr_p3 := map (fun i => (i, party_run com h512 i q (tape i) 0 (hr_B1 i) (hr_B2 i) (hr_U2 i) [])) q.
+    Definition hr_U3 (i : N) := collect (fun r => get i (pr_r3u r)) hr_p3 i.
+    Definition honest_run : list (N * prun) :=
+      map (fun i => (i, party_run com h512 i q (tape i) 0 (hr_B1 i) (hr_B2 i) (hr_U2 i) (hr_U3 i))) q.
+  End Scheduler.
 End HonestRun.
 
 (* ---------- a concrete honest run with computable toy hashes (sid_agreement and
@@ -1237,3 +1241,122 @@ Proof.
     - repeat split; vm_compute; reflexivity. }
   split; vm_compute; reflexivity.
 Qed.
+
+(* ====================================================================== *)
+(* the honest scheduler: every two completing parties match                *)
+(* ====================================================================== *)
+
+Section HonestRunAgreement.
+  Variable com : bytes -> bytes -> bytes.
+  Variable h512 : bytes -> bytes.
+  Variable xof : bytes -> bytes -> N -> N -> bytes.
+
+  Ltac split_run :=
+    repeat match goal with
+           | |- context [match ?x with _ => _ end] => destruct x
+           end; cbn; try reflexivity.
+
+  (* what a party sends in a round does not depend on what is delivered to it later *)
+  Lemma pr_r1_indep id q t u B1 B2 U2 U3 u' B1' B2' U2' U3' :
+    pr_r1 (party_run com h512 id q t u B1 B2 U2 U3) = pr_r1 (party_run com h512 id q t u' B1' B2' U2' U3').
+  Proof.
+    unfold party_run.
+    destruct (new_participant id q t); [|reflexivity].
+    destruct (round1 com p) as [[p1 o1]|]; [|reflexivity].
+    transitivity (Some o1); [|symmetry]; split_run.
+  Qed.
+
+  Lemma pr_r2_indep id q t B1 B2 U2 U3 B2' U2' U3' :
+    pr_r2b (party_run com h512 id q t 0 B1 B2 U2 U3) = pr_r2b (party_run com h512 id q t 0 B1 B2' U2' U3') /\
+    pr_r2u (party_run com h512 id q t 0 B1 B2 U2 U3) = pr_r2u (party_run com h512 id q t 0 B1 B2' U2' U3').
+  Proof.
+    unfold party_run.
+    destruct (new_participant id q t); [|split; reflexivity].
+    destruct (round1 com p) as [[p1 o1]|]; [|split; reflexivity].
+    change (0 =? 2) with false. change (0 =? 3) with false. change (0 =? 4) with false. cbv iota.
+    destruct (round2 com p1 B1) as [[[p2 o2] u2]|]; [|split; reflexivity].
+    split.
+    - transitivity (Some o2); [|symmetry]; split_run.
+    - transitivity u2; [|symmetry]; split_run.
+  Qed.
+
+  Lemma pr_r3_indep id q t B1 B2 U2 U3 U3' :
+    pr_r3u (party_run com h512 id q t 0 B1 B2 U2 U3) = pr_r3u (party_run com h512 id q t 0 B1 B2 U2 U3').
+  Proof.
+    unfold party_run.
+    destruct (new_participant id q t); [|reflexivity].
+    destruct (round1 com p) as [[p1 o1]|]; [|reflexivity].
+    change (0 =? 2) with false. change (0 =? 3) with false. change (0 =? 4) with false. cbv iota.
+    destruct (round2 com p1 B1) as [[[p2 o2] u2]|]; [|reflexivity].
+    destruct (round3 com p2 B2 U2) as [[p3 u3]|]; [|reflexivity].
+    transitivity u3; [|symmetry]; split_run.
+  Qed.
+
+  Lemma collect_get_notin {A B} (f : A -> option B) (F : N -> A) (q : list N) (skip j : N) :
+    ~ In j q -> get j (collect f (map (fun i => (i, F i)) q) skip) = None.
+  Proof.
+    induction q as [|y q IH]; intros Hn; [reflexivity|].
+    cbn [map collect].
+    assert (j <> y) by (intros ->; apply Hn; left; reflexivity).
+    assert (Hn' : ~ In j q) by (intros K; apply Hn; right; exact K).
+    destruct (y =? skip); [apply IH; exact Hn'|].
+    destruct (f (F y)); [cbn [get]; destruct (j =? y) eqn:E2; [lia|]|]; apply IH; exact Hn'.
+  Qed.
+
+  Lemma collect_get {A B} (f : A -> option B) (F : N -> A) (q : list N) (skip j : N) :
+    NoDup q -> In j q -> j <> skip ->
+    get j (collect f (map (fun i => (i, F i)) q) skip) = f (F j).
+  Proof.
+    induction q as [|x q IH]; intros Hnd Hin Hne; [destruct Hin|].
+    inversion Hnd as [|? ? Hx Hnd']; subst.
+    cbn [map collect].
+    destruct (N.eq_dec x j) as [->|Hd].
+    - destruct (j =? skip) eqn:E; [lia|].
+      destruct (f (F j)) as [b|] eqn:Ef.
+      + cbn [get]. rewrite N.eqb_refl. reflexivity.
+      + apply collect_get_notin. exact Hx.
+    - destruct Hin as [->|Hin]; [contradiction|].
+      destruct (x =? skip); [apply IH; assumption|].
+      destruct (f (F x)); [cbn [get]; destruct (j =? x) eqn:E2; [lia|]|]; apply IH; assumption.
+  Qed.
+
+  Lemma in_honest_run q tape i ri :
+    In (i, ri) (honest_run com h512 q tape) ->
+    In i q /\
+    ri = party_run com h512 i q (tape i) 0 (hr_B1 com h512 q tape i) (hr_B2 com h512 q tape i)
+                   (hr_U2 com h512 q tape i) (hr_U3 com h512 q tape i).
+  Proof.
+    unfold honest_run. rewrite in_map_iff. intros (x & E & Hx). injection E as -> <-.
+    split; [exact Hx|reflexivity].
+  Qed.
+
+  (* in a run of the honest scheduler every two parties that complete hold matching
+     contexts (same SID, transcript, quorum) and the same pairwise seed *)
+  Theorem honest_run_agreement q tape i j ri rj ci cj :
+    NoDup q -> In (i, ri) (honest_run com h512 q tape) -> In (j, rj) (honest_run com h512 q tape) -> i <> j ->
+    pr_ctx ri = Some ci -> pr_ctx rj = Some cj ->
+    (exists s, get j (cx_seeds ci) = Some s /\ get i (cx_seeds cj) = Some s) /\
+    ctx_match ci cj /\ cx_holder ci = i /\ cx_holder cj = j.
+  Proof.
+    intros Hnd Hi Hj Hne Ci Cj.
+    apply in_honest_run in Hi. destruct Hi as [Ii ->].
+    apply in_honest_run in Hj. destruct Hj as [Ij ->].
+    apply (pair_symmetry com h512 xof i j q q (tape i) (tape j) 0 0
+             (hr_B1 com h512 q tape i) (hr_B2 com h512 q tape i) (hr_U2 com h512 q tape i) (hr_U3 com h512 q tape i)
+             (hr_B1 com h512 q tape j) (hr_B2 com h512 q tape j) (hr_U2 com h512 q tape j) (hr_U3 com h512 q tape j)
+             ci cj); try assumption; try reflexivity.
+    - unfold same_broadcasts. split; [|split; [|split; [|split]]].
+      + intros s Hs N1 N2. unfold hr_B1, hr_B2, hr_p1, hr_p2.
+        rewrite !collect_get by (assumption || congruence). split; reflexivity.
+      + unfold hr_B1 at 1, hr_p1. rewrite collect_get by (assumption || congruence). apply pr_r1_indep.
+      + unfold hr_B2 at 1, hr_p2. rewrite collect_get by (assumption || congruence).
+        symmetry. apply pr_r2_indep.
+      + unfold hr_B1 at 1, hr_p1. rewrite collect_get by (assumption || congruence). apply pr_r1_indep.
+      + unfold hr_B2 at 1, hr_p2. rewrite collect_get by (assumption || congruence).
+        symmetry. apply pr_r2_indep.
+    - unfold hr_U3 at 1, hr_p3. rewrite collect_get by (assumption || congruence).
+      f_equal. symmetry. apply pr_r3_indep.
+    - unfold hr_U3 at 1, hr_p3. rewrite collect_get by (assumption || congruence).
+      f_equal. symmetry. apply pr_r3_indep.
+  Qed.
+End HonestRunAgreement.
